@@ -120,17 +120,17 @@ def gen_drain(rng, k):
     net = Net(rng, nnodes=2, cap=0, bw=rng.choice([0, 50000000]), lat=rng.choice([0, 1000000]))
     L = list(net.lines)
     size = rng.choice([1400, 1400, 1000, 100, 1472])
-    buf = rng.choice([10, 10, 1, 100, 2000])
+    buf = rng.choice(["10", "10", "1", "100", "2000", "8 8 16", "100 1 2000", "3 5"])      # one receive buffer or several (scatter)
     bursts = rng.choice([20, 20, 24, 3])
     per = rng.choice([10, 10, 12])
     ops = ["udp_new 1 1", "udp_open 1 1", "udp_bind 1 0 0 5000", "udp_new 2 2", "udp_open 2 1", "udp_bind 2 0 0 6000"]
     style = rng.choice(["arecv", "arecv_from", "wait"])
     if style == "wait":
         ops.append("udp_wait 1 60")
-        H = {60: ["udp_recvfrom 1 : %d" % buf, "udp_wait 1 60"]}
+        H = {60: ["udp_recvfrom 1 : %s" % buf, "udp_wait 1 60"]}
     else:
-        ops.append("udp_arecv 1 %d 60 : %d" % (1 if style == "arecv_from" else 0, buf))
-        H = {60: ["udp_arecv 1 %d 60 : %d" % (1 if style == "arecv_from" else 0, buf)]}
+        ops.append("udp_arecv 1 %d 60 : %s" % (1 if style == "arecv_from" else 0, buf))
+        H = {60: ["udp_arecv 1 %d 60 : %s" % (1 if style == "arecv_from" else 0, buf)]}
     H[50] = ["udp_send 2 0 %d 5000 : %d %d" % (net.ip(1)[1], rng.randrange(1000), size)] * per
     t = 0
     for b in range(bursts):
@@ -172,6 +172,20 @@ def oracle(lines, trace):
             got = sum(1 for (t, tag, f) in ev if tag == 4 and f[0] == 3 and f[2] == 0 and t > t0)
         else:
             got = sum(1 for (t, tag, f) in ev if tag == 1 and f[0] == 60 and len(f) >= 5 and f[1] == 0 and t > t0)
+        # every datagram delivered is the payload sent, cut to the room of the receive buffers
+        snd = [l.split() for l in lines if l.startswith("H 50 udp_send 2 ")][0]
+        seed, size = int(snd[snd.index(":") + 1]), int(snd[snd.index(":") + 2])
+        rb = [l.split() for l in lines if l.startswith("H 60 udp_arecv") or l.startswith("H 60 udp_recvfrom")][0]
+        room = sum(int(x) for x in rb[rb.index(":") + 1:])
+        want = adler(pat(seed, size)[:min(size, room)])
+        for (t, tag, f) in ev:
+            ok = (tag == 1 and f[0] == 60 and len(f) >= 5 and f[1] == 0) or (tag == 4 and f[0] == 3 and len(f) >= 6 and f[2] == 0)
+            if ok:
+                n, dig = (f[2], f[4]) if tag == 1 else (f[3], f[5])
+                if n != min(size, room) or dig != want:
+                    fails.append(("c08/payload", "a datagram of %d bytes read into buffers of %s bytes came out as %d bytes with digest %d; the payload sent, cut to %d bytes, has digest %d" % (
+                        size, rb[rb.index(":") + 1:], n, dig, min(size, room), want)))
+                    break
         if got < sent:
             fails.append(("c08/drained-loss", "%d datagrams were accepted by send_to over unbounded links%s but a reader that always drains its queue received only %d of them" % (sent, " after the receiver was re-opened" if tcl else "", got)))
     # what was sent: (payload digest, len) of every accepted send, in order, with return codes
